@@ -147,9 +147,10 @@ func renderApp(a App) obj {
 	return o
 }
 
-// Render is the caddy JSON of an abstract configuration. Admin settings are the same in
-// every configuration (endpoint disabled, no autosave, the probe config loader).
-func Render(c Cfg) []byte {
+// Render is the caddy JSON of an abstract configuration. Admin settings are the same in every
+// configuration of a history (endpoint disabled, or enabled on a private unix socket; no
+// autosave, the probe config loader).
+func Render(c Cfg, admOn bool) []byte {
 	logs := obj{"default": obj{"level": "ERROR"}}
 	for j, m := range c.Logs {
 		w := obj{"output": "verif_probe", "idx": j, "key": m.Key}
@@ -168,9 +169,15 @@ func Render(c Cfg) []byte {
 	for _, a := range c.Apps {
 		apps[appKey(a.Name)] = renderApp(a)
 	}
+	admin := obj{"disabled": true, "config": obj{"persist": false,
+		"load": obj{"module": "verif_probe"}, "load_delay": "1h"}}
+	if admOn {
+		// the endpoint on a private unix socket; the same in every configuration of the history
+		delete(admin, "disabled")
+		admin["listen"] = "unix/" + privDir + "/admin.sock"
+	}
 	top := obj{
-		"admin": obj{"disabled": true, "config": obj{"persist": false,
-			"load": obj{"module": "verif_probe"}, "load_delay": "1h"}},
+		"admin":   admin,
 		"logging": obj{"logs": logs},
 		"apps":    apps,
 	}
